@@ -263,6 +263,26 @@ impl World {
         (found.expect("node not found in store"), muts)
     }
 
+    /// a signer restored from a COPY of the store: what it is asked afterwards leaves the store of
+    /// the running signer alone (None: the restore panics)
+    pub fn restore_on_copy(&self, node_id: &PublicKey) -> Option<Arc<Node>> {
+        use vls_persist::kvv::{KVVStore, KVV};
+        std::panic::catch_unwind(std::panic::AssertUnwindSafe(|| {
+            let store = MemoryKVVStore::new([7u8; 16]);
+            let all: Vec<KVV> = self.persister.0.get_prefix("").expect("get_prefix").collect();
+            store.put_batch(all).expect("copy");
+            let p: Arc<dyn Persist> = Arc::new(KVVPersister(store, JsonFormat));
+            let services = self.services_with(p.clone());
+            for (id, entry) in p.get_nodes().expect("get_nodes") {
+                if id == *node_id {
+                    return Node::restore_node(&id, entry, &self.seed, services).expect("restore");
+                }
+            }
+            panic!("node not found in store");
+        }))
+        .ok()
+    }
+
     /// every key / version / value of the (local) store the node runs on
     pub fn dump(&self) -> Vec<(String, u64, String)> {
         match &self.cloud {
